@@ -5,3 +5,4 @@ Definition k_flow_auth_step : pfun :=
     SAssign ["out_token"] (POr (PMeth "step" (PAttr (PName "self") "ctx") [(PName "in_token")]) (PBytes []));
     SReturn (PCall "SecTrailer/type,level,pad_length,context_id,auth_value" [(PAttr (PName "self") "provider"); (PName "AuthenticationLevel.RPC_C_AUTHN_LEVEL_PKT_PRIVACY"); (PInt 0); (PInt 0); (PName "out_token")])
   ] |}.
+Definition k_flow_auth_step_defaults : list (string * pexp) := [("in_token", PNone)].
